@@ -75,8 +75,14 @@ class Formatter:
         "MMM": "months.abbreviated",
         "Mo": None,
         "DDDo": None,
-        "Do": lambda locale: tuple(
-            rf"\d+{o}" for o in locale.get("custom.ordinal").values()
+        # format() writes a bare number when the locale has no ordinal
+        # for it (no table at all, or none for that plural class)
+        "Do": lambda locale: (
+            *(
+                rf"\d+{re.escape(o)}"
+                for o in (locale.get("custom.ordinal") or {}).values()
+            ),
+            r"\d+",
         ),
         "dddd": "days.wide",
         "ddd": "days.abbreviated",
